@@ -167,14 +167,14 @@ Definition conflict_free_ip (p : plan) (f : foot) (y : styles) : bool :=
 Definition colsig := list (nat * (list nat * list nat)).
 Fixpoint cols_of (c : colsig) (s : nat) : list nat * list nat :=
   match c with [] => ([], []) | (k, v) :: t => if Nat.eqb k s then v else cols_of t s end.
-Definition disj (a b : list nat) : bool := forallb (fun x => negb (mem x b)) a.
-Fixpoint nodupn (l : list nat) : bool := match l with [] => true | x :: t => negb (mem x t) && nodupn t end.
+Definition ip_disj (a b : list nat) : bool := forallb (fun x => negb (mem x b)) a.
+Fixpoint ip_nodup (l : list nat) : bool := match l with [] => true | x :: t => negb (mem x t) && ip_nodup t end.
 Definition ip_cols_ok (p : plan) (f : foot) (y : styles) (c : colsig) : bool :=
   forallb (fun a => negb (style_of y (sid a))
                     || (negb (Nat.eqb (length (fst (cols_of c (sid a)))) 0)
-                        && nodupn (fst (cols_of c (sid a))) && disj (snd (cols_of c (sid a))) (fst (cols_of c (sid a))))) p
+                        && ip_nodup (fst (cols_of c (sid a))) && ip_disj (snd (cols_of c (sid a))) (fst (cols_of c (sid a))))) p
   && forallb (fun a => forallb (fun b =>
        negb (negb (Nat.eqb (sid a) (sid b)) && unordered p a b && ip_pair f y (sid a) (sid b))
-       || (disj (fst (cols_of c (sid a))) (fst (cols_of c (sid b)))
-           && disj (snd (cols_of c (sid a))) (fst (cols_of c (sid b)))
-           && disj (snd (cols_of c (sid b))) (fst (cols_of c (sid a))))) p) p.
+       || (ip_disj (fst (cols_of c (sid a))) (fst (cols_of c (sid b)))
+           && ip_disj (snd (cols_of c (sid a))) (fst (cols_of c (sid b)))
+           && ip_disj (snd (cols_of c (sid b))) (fst (cols_of c (sid a))))) p) p.
